@@ -20,6 +20,7 @@ import (
 	"sync"
 	"testing/synctest"
 	"time"
+	"unsafe"
 )
 
 type taskState uint8
@@ -49,6 +50,52 @@ type Task struct {
 	prio  int
 	// Req is an opaque per-task slot the harness may use (e.g. current request record).
 	Req any
+	// Harness marks a task that runs harness code; inServer is set while it executes code under test.
+	// Only meaningful in -race builds, see hbIn.
+	Harness  bool
+	inServer bool
+}
+
+// hbTok carries the happens-before edges between harness sections in -race builds. The baton serialises
+// all tasks, but the race detector is not told (the simulator's own synchronisation is hidden from it so
+// that only the program's synchronisation orders the program's accesses). Harness state shared between
+// harness tasks would then look racy: every stretch of harness code therefore acquires the token when it
+// gets the baton and releases it when it gives the baton up or enters code under test. Code under test
+// never touches the token, so two requests that overlap in the simulated schedule stay unordered.
+var hbTok [8]byte
+
+//go:norace
+func (t *Task) hbIn() {
+	if t != nil && t.Harness && !t.inServer {
+		raceAcquire(unsafe.Pointer(&hbTok))
+	}
+}
+
+//go:norace
+func (t *Task) hbOut() {
+	if t != nil && t.Harness && !t.inServer {
+		raceReleaseMerge(unsafe.Pointer(&hbTok))
+	}
+}
+
+// EnterServer marks the start of code under test inside a harness task (a request handler called directly).
+//
+//go:norace
+func EnterServer() {
+	if t := Cur(); t != nil && t.Harness {
+		t.hbOut()
+		t.inServer = true
+	}
+}
+
+// LeaveServer marks the return to harness code.
+//
+//go:norace
+func LeaveServer() {
+	if t := Cur(); t != nil && t.Harness {
+		t.inServer = false
+		t.hbIn()
+	}
 }
 
 // Strategy selects how the scheduler picks among runnable tasks.
@@ -108,6 +155,9 @@ func New(sched, maporder, entropy *Stream) *Sim {
 	}
 	s.FS = newFS(s)
 	S = s
+	// library state that is initialised lazily under a sync.Once must be initialised here, where the race
+	// detector still sees the Once: the scheduler creates its timers with synchronisation events ignored
+	time.NewTimer(time.Hour).Stop()
 	return s
 }
 
@@ -197,6 +247,7 @@ func Cur() *Task {
 //go:norace
 func (s *Sim) newTask(key uint64, name, class string, parent *Task) *Task {
 	t := &Task{Key: key, Name: name, Class: class, wake: make(chan struct{}), state: stBlockedReal}
+	t.Harness = class == "client" || class == "main" || class == "monitor"
 	if parent != nil {
 		t.Gen, t.Tag, t.Repos, t.Req = parent.Gen, parent.Tag, parent.Repos, parent.Req
 	}
@@ -249,6 +300,7 @@ func (s *Sim) finish(t *Task) {
 			s.AbortReason = "panic in task " + t.Name
 		}
 	}
+	t.hbOut()
 	raceDisable()
 	s.mu.Lock()
 	t.state = stDone
@@ -279,6 +331,7 @@ func Acquire(t *Task) {
 	}
 	<-t.wake
 	raceEnable()
+	t.hbIn()
 }
 
 // Release gives up the baton before a real blocking operation; pair with Acquire.
@@ -290,6 +343,7 @@ func Release() *Task {
 	if t == nil {
 		panic("simrt: Release without the baton")
 	}
+	t.hbOut()
 	raceDisable()
 	s.mu.Lock()
 	t.state = stBlockedReal
@@ -309,6 +363,7 @@ func Yield() {
 	if t == nil {
 		panic("simrt: Yield without the baton")
 	}
+	t.hbOut()
 	raceDisable()
 	s.mu.Lock()
 	t.state = stRunnable
@@ -317,6 +372,7 @@ func Yield() {
 	s.back <- struct{}{}
 	<-t.wake
 	raceEnable()
+	t.hbIn()
 }
 
 // block parks the current task on a simulated primitive until makeRunnable(t) and rescheduling.
@@ -324,6 +380,7 @@ func Yield() {
 //go:norace
 func (s *Sim) block(t *Task, on string) {
 	t.where = callerSummary(3)
+	t.hbOut()
 	raceDisable()
 	s.mu.Lock()
 	t.state = stBlockedSim
@@ -334,6 +391,7 @@ func (s *Sim) block(t *Task, on string) {
 	<-t.wake
 	t.on = ""
 	raceEnable()
+	t.hbIn()
 }
 
 //go:norace
@@ -356,6 +414,7 @@ func (s *Sim) WaitIdle() {
 	if t == nil {
 		panic("simrt: WaitIdle without the baton")
 	}
+	t.hbOut()
 	raceDisable()
 	s.mu.Lock()
 	t.state = stWaitIdle
@@ -364,6 +423,7 @@ func (s *Sim) WaitIdle() {
 	s.back <- struct{}{}
 	<-t.wake
 	raceEnable()
+	t.hbIn()
 }
 
 // OthersQuiet reports whether every task other than the caller is finished or waiting for
@@ -415,6 +475,8 @@ type Result struct {
 //go:norace
 func (s *Sim) Run() (res Result) {
 	raceDisable()
+	// (deferred calls run last-in first-out: the root sees what the harness tasks wrote once the detector listens again)
+	defer raceAcquire(unsafe.Pointer(&hbTok))
 	defer raceEnable()
 	defer func() { res.Steps = s.Steps }()
 	var last *Task
@@ -676,13 +738,16 @@ func AfterFunc(d time.Duration, f func()) *time.Timer {
 	fire := uint64(0)
 	parent := s.cur
 	var gen int
+	harness := false
 	if parent != nil {
 		gen = parent.Gen
+		harness = parent.Harness && !parent.inServer
 	}
 	return time.AfterFunc(d, func() {
 		fire++
 		t := s.newTask(1<<62|id<<20|fire, fmt.Sprintf("timer%d", id), "timer", nil)
 		t.Gen = gen
+		t.Harness = harness
 		Acquire(t)
 		defer s.finish(t)
 		Probe("timer-fired")
